@@ -147,6 +147,7 @@ def run(P: Program, R: Report, tier: str) -> None:
     R.decides += [
         "every mask change of a surviving node triggers recomputation, after the array was written, through the same kernel and scale as bulk computation, on the node's own frame and id",
     ]
+    R.decides += ['per-region measurements look at their own label only; regionprops is handed the frame unchanged; enabling with recomputation computes every requested key; memo discipline; position key threading']
     R.not_decided += ["any numerical equality (area, centroid, shape features are runtime values)"]
     A = ActionAnalysis(P)
     ann = P.class_named("RegionpropsAnnotator")
